@@ -120,6 +120,22 @@ def inverse [Cmp α] (m : Mt4 α) : Option (Mt4 α) :=
 
 /-- `look_at_matrix_lh` -/
 def lookAtLh [HasSqrt α] [Cmp α] [OfNatCast α] [Trig α] (eye center up : Pt3 α) : Mt4 α :=
+  let f0 := Pt3.sub center eye
+  -- repaired: no direction to look in (a zero vector cannot be normalized)
+  if Cmp.eqb f0.x 0 && Cmp.eqb f0.y 0 && Cmp.eqb f0.z 0 then identity else
+  let f := Pt3.normalized f0
+  let s := Pt3.cross up f
+  if Cmp.eqb s.x 0 && Cmp.eqb s.y 0 && Cmp.eqb s.z 0 then
+    if Cmp.ltb (Pt3.dot up f) 0 then rotXMatrix (lit 180) else identity
+  else
+    let s := Pt3.normalized s
+    let u := Pt3.cross f s
+    ⟨⟨s.x, s.y, s.z, -(Pt3.dot s eye)⟩, ⟨u.x, u.y, u.z, -(Pt3.dot u eye)⟩,
+     ⟨f.x, f.y, f.z, -(Pt3.dot f eye)⟩, ⟨0, 0, 0, 1⟩⟩
+
+/-- `look_at_matrix_lh` as first published: without the guard for `eye == center` (the zero vector
+is normalized, every entry is NaN in doubles) -/
+def lookAtLhLegacy [HasSqrt α] [Cmp α] [OfNatCast α] [Trig α] (eye center up : Pt3 α) : Mt4 α :=
   let f := Pt3.normalized (Pt3.sub center eye)
   let s := Pt3.cross up f
   if Cmp.eqb s.x 0 && Cmp.eqb s.y 0 && Cmp.eqb s.z 0 then
